@@ -185,11 +185,11 @@ def pGenerated (d : Gen.D) (f : Nat) (ts : List Tok) : R (Option GenCol) :=
            | none => .error .parse)
   else .ok (none, ts)
 
-/-- the attribute loop of `_parse_define_column_expression` (`while not scanner.is_finish`) -/
-def defColLoop (d : Gen.D) (f : Nat) : Nat → DefCol → List Tok → Except Err DefCol
+/-- the attribute loop of `_parse_define_column_expression` (until the end of the cursor, a `;` or a `,`) -/
+def defColLoop (d : Gen.D) (f : Nat) : Nat → DefCol → List Tok → R DefCol
   | 0, _, _ => .error .fuel
   | g+1, c, ts =>
-    if ts.isEmpty then .ok c
+    if ts.isEmpty || searchStr ts ";" || searchStr ts "," then .ok (c, ts)
     else if searchTwoUp ts "NOT" "NULL" then defColLoop d f g { c with notNull := true } (ts.drop 2)
     else if searchStrUp ts "NULL" then defColLoop d f g { c with allowNull := true } (ts.drop 1)
     else if searchTwoUp ts "CHARACTER" "SET" then
@@ -211,14 +211,13 @@ def defColLoop (d : Gen.D) (f : Nat) : Nat → DefCol → List Tok → Except Er
        | .ok (none, _) => .error .parse
        | .error e => .error e)
     else .error .parse
-/-- `_parse_define_column_expression`: consumes the whole cursor -/
+/-- `_parse_define_column_expression` -/
 def pDefCol (d : Gen.D) (f : Nat) (ts : List Tok) : R DefCol :=
   match popSrc ts with
   | .error e => .error e
   | .ok (n, r) => match pColType d f r with
     | .error e => .error e
-    | .ok (ty, r1) => match defColLoop d f (r1.length + 1) { name := unifyName n, type := ty } r1 with
-      | .ok c => .ok (c, []) | .error e => .error e
+    | .ok (ty, r1) => defColLoop d f (r1.length + 1) { name := unifyName n, type := ty } r1
 
 /-- `_parse_column_or_index` -/
 def pColOrIdx (d : Gen.D) (f : Nat) (ts : List Tok) : R ColOrIdx :=
@@ -484,7 +483,7 @@ def pUpdateSetCol (d : Gen.D) (f : Nat) (ts : List Tok) : R (String × Expr) :=
   | .error e => .error e
   | .ok (c, r) => match matchKw r "=" with
     | .error e => .error e
-    | .ok (_, r1) => match pOr d f r1 with | .ok (v, r2) => .ok ((c, v), r2) | .error e => .error e
+    | .ok (_, r1) => match pOr d f r1 with | .ok (v, r2) => .ok ((unifyName c, v), r2) | .error e => .error e
 def updateSetLoop (d : Gen.D) (f : Nat) : Nat → List (String × Expr) → List Tok → R (List (String × Expr))
   | 0, _, _ => .error .fuel
   | g+1, acc, ts =>
